@@ -89,7 +89,17 @@ def plan(tier, seed):
         s += off_patterns()
         s += [mask_pattern(1, m, rng) for m in masks]          # ALL server patterns over 8 slots, h = 1
         s += [mask_pattern(2, m, rng) for m in rng.sample(masks, 24)]
-    return [dict(id=i + 1, pattern=p, ch=ch, sh=sh, sched=sched, end=end) for i, (p, ch, sh, sched, end) in enumerate(s)]
+    res = [dict(id=i + 1, pattern=p, ch=ch, sh=sh, sched=sched, end=end) for i, (p, ch, sh, sched, end) in enumerate(s)]
+    # (g) a slow server: Connection.Open is answered 1.5 h after Tune - the timers run from TuneOk on, so a
+    #     heartbeat is due during the handshake already and the rules hold unchanged afterwards
+    hs = (1,) if tier == "quick" else (1, 2)
+    for h in hs:
+        H = 1000 * h
+        res.append(dict(id=len(res) + 1, pattern="slow-open-idle", ch=h, sh=h, sched=_every("shb", 0.9 * H, 3.2 * H),
+                        end=int(3.3 * H), open_delay=int(1.5 * H)))
+        res.append(dict(id=len(res) + 1, pattern="slow-open-silence", ch=h, sh=h, sched=[], end=2 * H + 3000,
+                        open_delay=int(1.5 * H)))
+    return res
 
 
 def run_sessions(sessions, tdir, par):
@@ -97,7 +107,8 @@ def run_sessions(sessions, tdir, par):
     def one(s):
         t = time.time()
         _, out, _ = vlib.run_vh(["run", "--out", tdir, "--id", s["id"], "--pattern", s["pattern"], "--ch", s["ch"],
-                                 "--sh", s["sh"], "--sched", json.dumps(s["sched"]), "--end", s["end"]],
+                                 "--sh", s["sh"], "--sched", json.dumps(s["sched"]), "--end", s["end"],
+                                 "--open-delay", s.get("open_delay", 0)],
                                 timeout=s["end"] / 1000.0 + 90, bin=BIN)
         d = json.loads(out.strip().splitlines()[-1])
         d["proc_wall_s"] = round(time.time() - t, 2)
@@ -173,7 +184,7 @@ def run(tier, seed, t0):
              "Listed patterns for negotiated h in %s: silence (h from either side being the minimum), a frame every "
              "0.9 h for 5.5 h, one byte every 0.9 h, busy-then-idle, busy client with silent server, calls then "
              "silence, server stops after three frames, the server going silent just before the client closes (the close must end with "
-             "MissedServerHeartbeats, not hang); five h = 0 set-ups observed for 3.5 s; server on/off masks "
+             "MissedServerHeartbeats, not hang), a server that answers Connection.Open only 1.5 h after Tune; five h = 0 set-ups observed for 3.5 s; server on/off masks "
              "over 8 slots of 0.6 h with seeded random client publishes (%s). Every record is stamped in ms from one "
              "monotonic clock; HeartbeatTrace.tla judges from the recorded times only (it does not know the pattern). "
              "non-trivial = every session (each runs the timers for seconds); distinct = distinct (options, schedule, "
